@@ -22,7 +22,7 @@ func (t *Tok) String() string { return "Tok(" + t.Type + "@" + t.ID + ")" }
 //
 //	nil err valerr panic_err panic_str panic_int thunk thunk_err thunk_nil
 //	notlist (a non-iterable where a list is expected) badleaf (a value the leaf type cannot
-//	serialise) nan inf bigint badenum typednil
+//	serialise) nan inf bigint badenum typednil leafpanic (the serializer raises)
 //
 // Kinds for runtime-type decisions (key = path + "#type"): rt_nil, rt_nonmember, istypeof_false.
 type Outcome struct {
@@ -96,15 +96,28 @@ func (w *World) Resolve(parentType string, fd *model.FieldDef, path []interface{
 			return Res{Kind: "thunk", Val: w.defVal(fd.Type, key, args, true)}
 		case "notlist":
 			return Res{Kind: "val", Val: "not-a-list"}
-		case "badleaf", "nan", "inf", "bigint", "badenum":
+		case "badleaf", "nan", "inf", "bigint", "badenum", "leafpanic":
 			return Res{Kind: "val", Val: w.badLeaf(o.Kind, fd.Type)}
 		}
 	}
 	return Res{Kind: "val", Val: w.defVal(fd.Type, key, args, true)}
 }
 
+// LeafPanic is a resolver result that makes the leaf type's serializer raise: it cannot be
+// hashed, so an enum's lookup of the internal value panics, and the custom scalars of built
+// schemas panic on it. The reference treats it as a field error at that position.
+type LeafPanic struct{ M map[string]int }
+
+// LeafRaises reports whether serialising raw raises instead of yielding a value or nothing.
+func LeafRaises(raw interface{}) bool {
+	_, ok := raw.(LeafPanic)
+	return ok
+}
+
 func (w *World) badLeaf(kind string, t model.TypeRef) interface{} {
 	switch kind {
+	case "leafpanic":
+		return LeafPanic{M: map[string]int{}}
 	case "nan":
 		return math.NaN()
 	case "inf":
@@ -126,7 +139,7 @@ func (w *World) defVal(t model.TypeRef, key string, args map[string]interface{},
 			return nil
 		case "notlist":
 			return "not-a-list"
-		case "badleaf", "nan", "inf", "bigint", "badenum":
+		case "badleaf", "nan", "inf", "bigint", "badenum", "leafpanic":
 			return w.badLeaf(o.Kind, t)
 		}
 	}
@@ -193,10 +206,23 @@ func (w *World) defValNN(t model.TypeRef, key string, args map[string]interface{
 	return nil
 }
 
+// fieldPath strips trailing list indices: runtime-type decisions are keyed by the path of the
+// field (the library's type callbacks are told the field's path, not the element's), so a
+// decision at a list-typed field applies to every element of the list.
+func fieldPath(path []interface{}) []interface{} {
+	for len(path) > 0 {
+		if _, isIdx := path[len(path)-1].(int); !isIdx {
+			break
+		}
+		path = path[:len(path)-1]
+	}
+	return path
+}
+
 // RuntimeType decides what the type resolver of an abstract type answers for value at path:
 // the object type name, "" for nil.
 func (w *World) RuntimeType(abstract string, value interface{}, path []interface{}) string {
-	if o, ok := w.Outcomes[PathKey(path)+"#type"]; ok {
+	if o, ok := w.Outcomes[PathKey(fieldPath(path))+"#type"]; ok {
 		switch o.Kind {
 		case "rt_nil":
 			return ""
@@ -212,7 +238,7 @@ func (w *World) RuntimeType(abstract string, value interface{}, path []interface
 
 // IsTypeOf decides what obj's isTypeOf answers for value at path.
 func (w *World) IsTypeOf(obj string, value interface{}, path []interface{}) bool {
-	if o, ok := w.Outcomes[PathKey(path)+"#type"]; ok && o.Kind == "istypeof_false" {
+	if o, ok := w.Outcomes[PathKey(fieldPath(path))+"#type"]; ok && o.Kind == "istypeof_false" {
 		return false
 	}
 	t, ok := value.(*Tok)
